@@ -405,6 +405,20 @@ class Prover:
                 res.append((op, d[2], d[3]))
             elif util.is_call(d, "core::str::<impl str>::is_empty") or util.is_call(d, "core::slice::<impl [T]>::is_empty"):
                 res.append(("Eq" if truth else "Ne", ("len", d[2][0]), ("int", 0, "usize")))
+            elif truth and util.is_call(d) and d[1].endswith("::contains") and ("std::ops::RangeInclusive" in d[1] or "std::ops::Range::" in d[1]) and len(d[2]) == 2:
+                # (a..=b).contains(&x) / (a..b).contains(&x) holds: a <= x and x <= b (x < b)
+                r_ = strip(d[2][0])
+                lo_ = hi_ = None
+                if util.is_call(r_, "std::ops::RangeInclusive::<Idx>::new") and len(r_[2]) == 2:
+                    lo_, hi_, op_ = r_[2][0], r_[2][1], "Le"
+                elif r_[0] == "agg" and r_[2] == "std::ops::RangeInclusive":
+                    lo_, hi_, op_ = r_[4][0], r_[4][1], "Le"
+                elif r_[0] == "agg" and r_[2] == "std::ops::Range":
+                    lo_, hi_, op_ = r_[4][0], r_[4][1], "Lt"
+                if lo_ is not None:
+                    x_ = util.numnorm(d[2][1])
+                    res.append(("Ge", x_, util.numnorm(lo_)))
+                    res.append((op_, x_, util.numnorm(hi_)))
         # a switch on an integer value itself (`match n { 0 => .., _ => .. }`)
         for d, v in self.facts(bb):
             d = util.map_term(util.numnorm(d), ok_payload)
